@@ -264,3 +264,41 @@ Qed.
 (* degenerate sizes: nothing is accepted (so the band / symmetry clauses are about the empty set) *)
 Theorem circle_zero_empty c p : c_d c = 0 -> circle_contains c p = false.
 Proof. apply circle_contains_zero. Qed.
+
+(* ---- styled shapes: when the stroke area is in the machine range, so is everything draw() / pixels() compute ---- *)
+From EG Require Import Proofs.Circlestyled Proofs.Ellipsestyled.
+
+Theorem circle_styled_machine_ok c st :
+  circle_sok c -> style_ok st -> c_d c + 2 * stroke_width st <= 32768 ->
+  circle_mok (circle_stroke_area c st) /\ circle_mok (circle_fill_area c st).
+Proof.
+  intros Hc Hs Hr. destruct (circle_areas c st Hc Hs) as (HA & HB & _).
+  destruct (offsets_range st Hs) as (E1 & R1 & R2 & E2). destruct (stroke_split st Hs) as [Hsum _].
+  pose proof Hc as [_ Hd]. unfold circle_stroke_area, circle_fill_area, circle_mok.
+  split; (split; [assumption|]); rewrite !circle_offset_d, ?E1, ?E2.
+  - unfold u32_max, sbound in *. destruct (0 <=? outside_stroke_width st) eqn:E; lia.
+  - unfold u32_max, sbound in *. destruct (stroke_kind st);
+      match goal with |- context [0 <=? ?n] => destruct (0 <=? n) eqn:E end; lia.
+Qed.
+
+Theorem ellipse_styled_machine_ok e st :
+  ellipse_sok e -> style_ok st ->
+  (sw (e_sz e) + 2 * stroke_width st) * (sh (e_sz e) + 2 * stroke_width st) <= 2147483648 ->
+  ellipse_mok (ellipse_stroke_area e st) /\ ellipse_mok (ellipse_fill_area e st).
+Proof.
+  intros He Hs Hr. destruct (ellipse_areas e st He Hs) as (HA & HB & _).
+  destruct (offsets_range st Hs) as (E1 & R1 & R2 & E2). destruct (stroke_split st Hs) as [Hsum _].
+  pose proof He as [_ [Hw Hh]]. unfold ellipse_stroke_area, ellipse_fill_area, ellipse_mok.
+  unfold style_ok in Hs.
+  split; (split; [assumption|]); rewrite !ellipse_offset_w, !ellipse_offset_h, ?E1, ?E2;
+  set (w := sw (e_sz e)) in *; set (h := sh (e_sz e)) in *; set (W := stroke_width st) in *;
+  set (out := outside_stroke_width st) in *; set (ins := inside_stroke_width st) in *; clearbody w h W out ins.
+  - unfold u32_max, sbound in *. destruct (0 <=? out) eqn:E; [|lia].
+    rewrite !Z.min_l by lia. assert (w + 2 * out <= w + 2 * W) by lia. assert (h + 2 * out <= h + 2 * W) by lia. nia.
+  - unfold u32_max, sbound in *.
+    assert (0 <= W * (w + h) /\ 0 <= W * W) as [? ?] by (split; apply Z.mul_nonneg_nonneg; lia).
+    assert ((w + 2 * W) * (h + 2 * W) = w * h + 2 * (W * (w + h)) + 4 * (W * W)) as Ering by ring.
+    assert (w * h <= 2147483648) by lia.
+    destruct (stroke_kind st); match goal with |- context [0 <=? ?n] => destruct (0 <=? n) eqn:E end;
+      rewrite ?Z.min_l by lia; try lia.
+Qed.
